@@ -1282,6 +1282,8 @@ func rulePreExits(r *core.Reporter) {
 			counts["work list empty"]++
 		case isSeedGuarded(fn, ret, isElem, 0):
 			counts["the element is the seed itself"]++
+		case !reachableWithoutJustification(fn, ret, loop, isElem):
+			counts["several justified ways merge here"]++
 		default:
 			bad++
 			r.Violated(fmt.Sprintf("preprocess/early-return#%d", bad), p.InstrPos(ret), "preprocess can return here with other nodes of the work list untouched: only `work list empty`, `the element is the seed itself` (IsSeed, or neither IsChild nor IsRedirection) and the end of the request loop justify a return")
@@ -1342,4 +1344,43 @@ func anyTrue(vs []bool) bool {
 		}
 	}
 	return false
+}
+
+// reachableWithoutJustification: the return stays reachable when every justifying edge is removed at once — the
+// exit of the request loop, `len(list) == 0`, `elem.IsSeed()`, and `!elem.IsRedirection()` tested under
+// `!elem.IsChild()` (or the other way round). Needed when several early exits of a split function merge into one
+// `if !ok { return }`.
+func reachableWithoutJustification(fn *ssa.Function, ret ssa.Instruction, loop ir.IfInfo, sameNode func(ssa.Value) bool) bool {
+	item := "(*" + pkgModels + ".Item)."
+	type edge struct {
+		b *ssa.BasicBlock
+		s int
+	}
+	cut := map[edge]bool{{loop.If.Block(), loop.EdgeWhen(false)}: true}
+	ifs := ir.Ifs(fn)
+	onRecv := func(a ir.Atom, name string) bool {
+		c := ir.BoolCallAtom(a, item+name)
+		return c != nil && sameNode(ir.Recv(c.Common()))
+	}
+	for _, ii := range ifs {
+		if isItemListLenZero(ii.Atom) {
+			cut[edge{ii.If.Block(), ii.EdgeWhen(true)}] = true
+		}
+		if onRecv(ii.Atom, "IsSeed") {
+			cut[edge{ii.If.Block(), ii.EdgeWhen(true)}] = true
+		}
+		for _, pair := range [][2]string{{"IsRedirection", "IsChild"}, {"IsChild", "IsRedirection"}} {
+			if !onRecv(ii.Atom, pair[0]) {
+				continue
+			}
+			// this test is only reached when the other one was false
+			for _, jj := range ifs {
+				if onRecv(jj.Atom, pair[1]) && ir.OnlyVia(ir.Entry(fn), ii.If, jj.If.Block(), jj.EdgeWhen(false)) {
+					cut[edge{ii.If.Block(), ii.EdgeWhen(false)}] = true
+				}
+			}
+		}
+	}
+	res := ir.Reach([]ir.Pt{ir.Entry(fn)}, ir.Opts{EdgeOK: func(b *ssa.BasicBlock, s int) bool { return !cut[edge{b, s}] }})
+	return res.Reached[ret]
 }
